@@ -224,7 +224,7 @@ fn run(cfg: &SutCfg, trace: &[Timed]) -> Result<Vec<sut::PktOut>, Violation> {
 impl Prop for C15 {
     type Scn = Scn;
     const ID: &'static str = "C15";
-    const ENGINE: &'static str = "netsim";
+    const ENGINE: &'static str = crate::NETSIM_ENGINE;
 
     fn rule() -> &'static str {
         "one evaluation = one (trace, filter) pair: the analyzer with the filter on the whole trace vs without filter on the sub-trace the filter admits by the analyzer's own view of each frame; non-trivial = the filter admits some and rejects some frames of the trace AND the unfiltered run reports something; distinct = distinct event-log hash"
@@ -249,6 +249,15 @@ impl Prop for C15 {
             let o = ConnOpts { v6, framing, max_parts: 3, gap_lo: 50_000, gap_hi: 20_000_000, tls_single_segment: kind == Kind::Unified };
             let ck = super::c07::kinds_for(kind, r);
             let mut c = conn::build(r, ck, *c, *s, &o);
+            // frame-size extreme: on one IPv6 connection in ten the SYN carries so much data that the IP part of the
+            // frame is 65536..65575 bytes (what a 64 KiB loopback MTU allows; lengths that no longer fit 16 bits)
+            if v6 && r.chance(1, 10) {
+                if let Some(st) = c.steps.first_mut() {
+                    let hdr = 40 + 20 + st.seg.tcp_opts.len().div_ceil(4) * 4;
+                    let k = r.usize_below(36);
+                    st.seg.payload = r.bytes(65536 + k - hdr);
+                }
+            }
             // IPv4 options on some connections (IHL > 5 with matching option bytes)
             if !v6 && r.chance(1, 5) {
                 let n = 4 * r.urange(1, 4);
